@@ -87,9 +87,9 @@ SPEC = dict(
         thorough=[
             _run("grammar-families", "--space", "grammars", "--family", "all", "--tier", "thorough"),
             _run("level-stamp", "--space", "level", "--tier", "thorough"),
-            _run("truncation", "--space", "trunc", "--tier", "thorough", "--hi", 300, "--modes", "1,2", "--rich", 8),
-            _run("block-boundary-ladder-uri-value", "--space", "ladder", "--tier", "thorough", "--hi", 4200, "--step", 3, "--modes", "1,2", "--rich", 8, "--sax-only", 1),
-            _run("block-boundary-ladder-list-annotation", "--space", "ladder", "--tier", "thorough", "--hi", 300, "--modes", "3,4", "--rich", 8, "--sax-only", 1),
+            _run("truncation", "--space", "trunc", "--tier", "thorough", "--hi", 200, "--modes", "1,2", "--rich", 8),
+            _run("block-boundary-ladder-uri-value", "--space", "ladder", "--tier", "thorough", "--hi", 4200, "--step", 7, "--modes", "1,2", "--rich", 8, "--sax-only", 1),
+            _run("block-boundary-ladder-list-annotation", "--space", "ladder", "--tier", "thorough", "--hi", 150, "--modes", "3,4", "--rich", 8, "--sax-only", 1),
             _run("locked-pool", "--space", "locked", "--tier", "thorough"),
         ],
     ),
